@@ -240,6 +240,19 @@ fn run_ring_case(rng: &mut Rng, rep: &mut Report, base: u64, long: bool) {
         }
     }
     let (sc, w) = *rng.pick(&cands);
+    // one case in eight starts just before a power-of-two multiple of the bucket length (bucket numbers
+    // 2^31, 2^32, 2^33, 2^40: far-future timestamps, e.g. 2038 for 500 ms buckets), so that the history
+    // crosses it: the ring position must not depend on the width of an intermediate integer type
+    let base = if rng.chance(1, 8) {
+        // (the virtual clock counts nanoseconds in an i64: stay below the year 2250)
+        let mut b = (1u64 << *rng.pick(&[31u32, 32, 32, 33, 40])) * *rng.pick(&[1u64, 1, 2, 3]) * bl as u64;
+        while b > 8_800_000_000_000 {
+            b /= 2;
+        }
+        b - rng.below(2 * interval as u64 + 2)
+    } else {
+        base
+    };
     let ring = Arc::new(BucketLeapArray::new(n, interval).unwrap());
     let win = SlidingWindowMetric::new(sc, w, ring.clone()).unwrap();
     let mut model = Model::new(n as u64, bl as u64);
